@@ -652,6 +652,7 @@ type evalEnv struct {
 	oldGh   map[string]string
 	retType []types.Type
 	loop    *ssa.BasicBlock // loop head whose invariant is being evaluated (for loop variables)
+	at      *ssa.BasicBlock // block of the program point the clause is evaluated at (atcall)
 	adopt   bool            // evaluating a pool invariant at Get: ownedFresh adopts the reference
 }
 
@@ -829,7 +830,38 @@ func (fx *FnExec) evalIdent(name string, env *evalEnv) (cval, error) {
 	if v := fx.localByName(name, env.loop); v != nil {
 		return fx.cvalOf(fx.val(v)), nil
 	}
+	if v := fx.localAt(name, env.at); v != nil {
+		return fx.cvalOf(fx.val(v)), nil
+	}
 	return cval{}, fmt.Errorf("unknown name %q", name)
+}
+
+// localAt: among several phis named `name`, the one that holds the variable's value at the given
+// block: its block dominates that block and is dominated by the blocks of all other candidates that
+// do (the last merge point of the variable before the program point).
+func (fx *FnExec) localAt(name string, at *ssa.BasicBlock) ssa.Value {
+	if at == nil {
+		return nil
+	}
+	var best *ssa.Phi
+	for _, b := range fx.Fn.Blocks {
+		for _, in := range b.Instrs {
+			phi, ok := in.(*ssa.Phi)
+			if !ok || phi.Comment != name || !(b == at || b.Dominates(at)) {
+				continue
+			}
+			if best == nil || best.Block().Dominates(b) {
+				best = phi
+			}
+		}
+	}
+	if best == nil {
+		return nil
+	}
+	// a definition between that merge point and the program point would make the phi stale: only
+	// accept it if no other phi of that name lies on a path in between (conservative: none reachable
+	// from best's block that can reach `at`, other than best itself, handled by the dominance choice)
+	return best
 }
 
 // localByName finds the SSA phi that carries the source variable `name`, preferring the one at the
@@ -855,6 +887,25 @@ func (fx *FnExec) localByName(name string, loop *ssa.BasicBlock) ssa.Value {
 	}
 	if len(found) > 1 {
 		return nil
+	}
+	// an addressable local (its address is taken or it is a struct whose fields are read in place):
+	// the name denotes the variable's cell, whatever values were stored into it
+	var cell ssa.Value
+	cells := 0
+	for _, b := range fx.Fn.Blocks {
+		for _, in := range b.Instrs {
+			if d, ok := in.(*ssa.DebugRef); ok && d.IsAddr {
+				if al, isAlloc := d.X.(*ssa.Alloc); isAlloc {
+					if id, ok := d.Expr.(*ast.Ident); ok && id.Name == name && cell != ssa.Value(al) {
+						cell = al
+						cells++
+					}
+				}
+			}
+		}
+	}
+	if cells == 1 {
+		return cell
 	}
 	// a local that is assigned once: every debug reference names the same SSA value
 	var single ssa.Value
@@ -1013,6 +1064,10 @@ func (fx *FnExec) evalField(base cval, name string, env *evalEnv) (cval, error) 
 				for _, po := range fx.private {
 					fx.assume("(distinct " + t + " " + po.ref + ")")
 				}
+			case *types.Slice:
+				for _, po := range fx.private {
+					fx.assume("(distinct (s.arr " + t + ") " + po.ref + ")")
+				}
 			}
 		}
 		return cval{S: t, T: ft, Sort: fx.sortOf(ft), P: nil}, nil
@@ -1044,6 +1099,22 @@ func (fx *FnExec) evalIndex(base, idx cval, env *evalEnv) (cval, error) {
 		return cval{S: r, T: t.Elem(), Sort: fx.sortOf(t.Elem())}, nil
 	case *types.Array:
 		return cval{S: "(select " + base.S + " " + idx.S + ")", T: t.Elem(), Sort: fx.sortOf(t.Elem())}, nil
+	case *types.Pointer:
+		// a local array variable (the name denotes its cell): element of the array object
+		if at, ok := t.Elem().Underlying().(*types.Array); ok {
+			arr := base.S
+			if arr == "" && base.P != nil && base.P.Kind == PArr {
+				arr = base.P.Arr
+			}
+			if arr == "" {
+				return cval{}, fmt.Errorf("cannot index this array variable")
+			}
+			var r string
+			fx.withHeap(env.heap, func() {
+				r = fx.load(&Place{Kind: PElem, Arr: arr, Idx: idx.S, Elem: at.Elem()})
+			})
+			return cval{S: r, T: at.Elem(), Sort: fx.sortOf(at.Elem())}, nil
+		}
 	}
 	return cval{}, fmt.Errorf("cannot index %s", base.T)
 }
@@ -1086,6 +1157,50 @@ func (fx *FnExec) evalCallC(x *ast.CallExpr, env *evalEnv) (cval, error) {
 			return cval{}, err
 		}
 		return boolr("(" + fn.Name + " ((" + qn + " " + sort + ")) " + body.S + ")")
+	case "cur": // cur(x): the current value of a parameter that the function reassigns (the phi named x)
+		id, ok := x.Args[0].(*ast.Ident)
+		if !ok {
+			return cval{}, fmt.Errorf("cur takes a variable name")
+		}
+		if v := fx.localByName(id.Name, env.loop); v != nil {
+			return fx.cvalOf(fx.val(v)), nil
+		}
+		return cval{}, fmt.Errorf("cur(%s): no reassigned local of that name", id.Name)
+	case "nth": // nth(x, k): the k-th of several locals that share the name x, in source order of their definitions
+		id, ok := x.Args[0].(*ast.Ident)
+		lit, ok2 := x.Args[1].(*ast.BasicLit)
+		if !ok || !ok2 {
+			return cval{}, fmt.Errorf("nth takes a variable name and a number")
+		}
+		k, _ := strconv.Atoi(lit.Value)
+		var vals []ssa.Value
+		seen := map[ssa.Value]bool{}
+		for _, b := range fx.Fn.Blocks {
+			for _, in := range b.Instrs {
+				d, isD := in.(*ssa.DebugRef)
+				if !isD || d.IsAddr {
+					continue
+				}
+				di, isI := d.Expr.(*ast.Ident)
+				if !isI || di.Name != id.Name {
+					continue
+				}
+				if _, isConst := d.X.(*ssa.Const); isConst || seen[d.X] {
+					continue
+				}
+				// only the defining occurrence (the identifier is being declared/assigned there)
+				if di.Obj != nil && di.Obj.Pos() != di.Pos() {
+					continue
+				}
+				seen[d.X] = true
+				vals = append(vals, d.X)
+			}
+		}
+		sort.SliceStable(vals, func(i, j int) bool { return vals[i].Pos() < vals[j].Pos() })
+		if k < 1 || k > len(vals) {
+			return cval{}, fmt.Errorf("nth(%s, %d): the function defines %d local(s) of that name", id.Name, k, len(vals))
+		}
+		return fx.cvalOf(fx.val(vals[k-1])), nil
 	case "old":
 		sub := *env
 		sub.heap = env.oldHeap
@@ -1171,7 +1286,7 @@ func (fx *FnExec) evalCallC(x *ast.CallExpr, env *evalEnv) (cval, error) {
 		if t == nil {
 			return cval{}, fmt.Errorf("typeIs: unknown type %q", name)
 		}
-		return boolr(fmt.Sprintf("(= (i.tag %s) %d)", v.S, fx.W.typeTag(t)))
+		return boolr(fmt.Sprintf("(= (i.tag %s) %d)", v.S, fx.tagOf(t)))
 	case "unboxAs": // unboxAs(v, "int64")
 		v, err := fx.evalC(x.Args[0], env)
 		if err != nil {
@@ -1360,6 +1475,20 @@ func (fx *FnExec) evalCallC(x *ast.CallExpr, env *evalEnv) (cval, error) {
 			return cval{}, kerr
 		}
 		return cval{S: r, Sort: rs}, nil
+	case "substr": // substr(s, lo, hi): the Go slice expression s[lo:hi] on strings
+		if len(x.Args) != 3 {
+			return cval{}, fmt.Errorf("substr takes 3 arguments")
+		}
+		var as [3]string
+		for i := 0; i < 3; i++ {
+			v, err := fx.evalC(x.Args[i], env)
+			if err != nil {
+				return cval{}, err
+			}
+			as[i] = v.S
+		}
+		fx.declareFun("substr", []string{"Str", "Int", "Int"}, "Str")
+		return cval{S: "(substr " + as[0] + " " + as[1] + " " + as[2] + ")", Sort: "Str", T: types.Typ[types.String]}, nil
 	case "bytesStr": // content of a []byte as a string
 		v, err := fx.evalC(x.Args[0], env)
 		if err != nil {
@@ -1392,7 +1521,7 @@ func (fx *FnExec) evalCallC(x *ast.CallExpr, env *evalEnv) (cval, error) {
 		}
 		return cval{S: "(store " + a.S + " " + k.S + " " + v.S + ")", Sort: a.Sort}, nil
 	}
-	if fn.Name == "elemsArr" || fn.Name == "off" {
+	if fn.Name == "elemsArr" || fn.Name == "off" || fn.Name == "arrRef" {
 		v, err := fx.evalC(x.Args[0], env)
 		if err != nil {
 			return cval{}, err
@@ -1400,6 +1529,9 @@ func (fx *FnExec) evalCallC(x *ast.CallExpr, env *evalEnv) (cval, error) {
 		st, ok := v.T.Underlying().(*types.Slice)
 		if !ok {
 			return cval{}, fmt.Errorf("%s: not a slice", fn.Name)
+		}
+		if fn.Name == "arrRef" { // identity of the backing array
+			return cval{S: "(s.arr " + v.S + ")", Sort: "Int", T: types.Typ[types.Int]}, nil
 		}
 		if fn.Name == "off" {
 			return cval{S: "(s.off " + v.S + ")", Sort: "Int", T: types.Typ[types.Int]}, nil
